@@ -171,3 +171,119 @@ def run(ctx):
     ctx.extra_cov["trace_events_validated"] = events
     ctx.extra_cov["storescp_release_replies_seen"] = answered
     ctx.exhaustive = False
+    if not q:
+        life_cycle(ctx, sched_async, scp)
+
+
+LIFE_ACTIONS = ["RqStart", "TcpConnect", "RqSendRQ", "RqRecvAC", "RqRecvAC0", "RqAbortAfterAC0", "RejectAnsweredWithAbort",
+                "RqUnexpectedAnswered", "RqEstEof", "RqGiveUp", "AcRecvRQ", "AcReplyAC", "AcReplyRJ", "AcCloseAfterRJ",
+                "EarlyReleaseAnsweredWithRP", "AcUnexpectedAnswered", "AcEstEof", "AcGiveUp", "AbortAnsweredWithAbort"]
+
+
+def life_cycle(ctx, sched, scp):
+    """Specification growth beyond the listed properties (thorough tier only): the whole association life cycle
+    (TCP connect .. close).  AssocLife.tla = AssocImpl + the establishment phase of requestor and acceptor, checked by TLC
+    to refine PS38StateMachine extended with Sta1-Sta5; whole-life-cycle wire traces of library peers, scripted peers,
+    storescp and the tools echoscu / storescu / findscu are validated with Trace_AssocLife.  Whatever this part
+    reveals lies outside the statements of C28-C30 and is reported as notes / extra coverage, never as a violation
+    (the C30 clauses themselves are decided above on the same kind of runs)."""
+    covered = {}
+    states = {}
+    for cfg in ("MC_AssocLife.cfg", "MC_AssocLife_rawrq.cfg", "MC_AssocLife_rawac.cfg"):
+        r = vlib.tlc(SPEC, "AssocLife", cfg, workers=4, timeout=1500)
+        ctx.check_model(r, "AssocLife %s (life-cycle properties + refinement of PS3.8 Sta1..Sta13)" % cfg)
+        states[cfg] = r.distinct
+        for a in LIFE_ACTIONS:
+            covered[a] = covered.get(a, 0) + r.coverage.get(a, 0)
+    missing = [a for a, n in covered.items() if n == 0]
+    if missing:
+        raise vlib.ToolError("vacuity: establishment actions never taken in any AssocLife configuration: %s" % missing)
+    ctx.extra_cov["life_cycle_model_states"] = states
+
+    traces = []       # (label, path, cases)
+    patterns = {}
+    # library peers and storescp, this time from the TCP connect on
+    for api in ("sync", "async"):
+        t = ctx.path("life_lib_%s.ndjson" % api)
+        a = ["lib", "--life", "--schedules", sched, "--random", 600 if api == "sync" else 200, "--jobs", 8, "--out", t]
+        if api == "async":
+            a.append("--async")
+        rp = vlib.run_driver("drv_release", a, env=ctx.env(), timeout=1500)
+        traces.append(("library peers (%s API)" % api, t, rp["cases"]))
+    for nb in (False, True):
+        t = ctx.path("life_scp_nb.ndjson" if nb else "life_scp.ndjson")
+        a = ["scp", "--life", "--bin", scp, "--n", 60, "--out", t]
+        if nb:
+            a.append("--non-blocking")
+        rp = vlib.run_driver("drv_release", a, env=ctx.env(), timeout=900)
+        traces.append(("storescp%s" % (" --non-blocking" if nb else ""), t, rp["cases"]))
+    # establishment variants: rejection, nothing accepted, scripted peers with the wrong PDU / early close
+    t = ctx.path("life_est.ndjson")
+    rp = vlib.run_driver("drv_release", ["est", "--n", 2, "--out", t], env=ctx.env(), timeout=1500)
+    traces.append(("establishment variants", t, rp["cases"]))
+    patterns.update({"establishment: " + k: v for k, v in rp["wire_patterns"].items()})
+    # the tools as requestors against a scripted acceptor
+    tools = {name: vlib.build_tool(name) for name in ("echoscu", "storescu", "findscu")}
+    t = ctx.path("life_tools.ndjson")
+    a = ["tools", "--n", 3, "--out", t]
+    for name, path in tools.items():
+        a += ["--" + name, path]
+    rp = vlib.run_driver("drv_release", a, env=ctx.env(), timeout=1500)
+    if rp.get("fatal"):
+        raise vlib.ToolError("tools run failed: %s" % rp["fatal"])
+    traces.append(("echoscu / storescu / findscu vs scripted acceptor", t, rp["cases"]))
+    tool_patterns = rp["tool_wire_patterns"]
+    if rp["hung"]:
+        ctx.note("life cycle: tools that had to be killed by the 30 s hang guard: %s" % rp["hung"])
+
+    allp = ctx.path("life_all.ndjson")
+    total = 0
+    with open(allp, "w") as f:
+        for _, path, n in traces:
+            f.write(open(path).read())
+            total += n
+    out = vlib.validate_trace_cases(SPEC, "Trace_AssocLife", allp, cfg="Trace_AssocLife.cfg", timeout=2400, heap="6g")
+    for r in out["results"]:
+        ctx.add_tlc(r)
+    rejected = []
+    for rj in out["rejections"]:
+        head = rj["case_events"][0] if rj["case_events"] else {}
+        rejected.append({"case": {k: head.get(k) for k in ("scripted", "variant", "tool", "acceptor", "sched", "api") if k in head},
+                         "rejected_event": rj["record"], "events": rj["case_events"][:40]})
+        ctx.note("life cycle (outside C28-C30): whole-life-cycle trace not a behaviour of AssocLife at %s; case %s"
+                 % (json.dumps(rj["record"])[:200], json.dumps(rejected[-1]["case"])[:200]))
+    ctx.cov["evaluations"] += total
+    ctx.extra_cov["life_cycle_traces_validated"] = total - len(rejected)
+    ctx.extra_cov["life_cycle_traces_rejected"] = rejected
+    ctx.extra_cov["life_cycle_trace_sources"] = {label: n for label, _, n in traces}
+    ctx.extra_cov["life_cycle_tool_wire_patterns"] = tool_patterns
+    ctx.extra_cov["life_cycle_establishment_wire_patterns"] = patterns
+
+    # observations (descriptive only): where dicom-rs takes a named deviation from PS3.8 during establishment
+    def count(pred, pats):
+        return sum(v for k, v in pats.items() if pred(k))
+    lib = lambda k: [x for x in k.split(": ", 1)[1].split(",") if x]
+    n_rj_abort = count(lambda k: "AssocRJ,Abort" in k.replace("script:AssocRJ", "AssocRJ") and "script:Abort" not in k, patterns)
+    n_abort_abort = count(lambda k: "script:Abort,Abort" in k or k.endswith("script:Abort,AssocRQ,Abort"), patterns)
+    n_early_rp = count(lambda k: "script:ReleaseRQ,ReleaseRP" in k, patterns)
+    if n_rj_abort:
+        ctx.note("life cycle observation: after an A-ASSOCIATE-RJ the requestor still writes an A-ABORT before closing "
+                 "(PS3.8 AE-4: just close); named deviation RejectAnsweredWithAbort; seen in %d establishment traces; tools "
+                 "doing the same when rejected: %s" % (n_rj_abort, sorted({k.split(" ")[0] for k in tool_patterns
+                                                                          if " vs Reject " in k and k.endswith(",Abort")})))
+    if n_abort_abort:
+        ctx.note("life cycle observation: an A-ABORT received while establishing is answered with an A-ABORT by requestor "
+                 "and acceptor (PS3.8 AA-2/AA-3: close without sending); named deviation AbortAnsweredWithAbort; %d traces"
+                 % n_abort_abort)
+    if n_early_rp:
+        ctx.note("life cycle observation: an A-RELEASE-RQ as the first PDU of a connection is answered by the acceptor with "
+                 "A-RELEASE-RP (PS3.8 AA-1: A-ABORT); named deviation EarlyReleaseAnsweredWithRP; %d traces" % n_early_rp)
+    abort_after_abort = [k for k in tool_patterns if "AbortMid" in k and k.endswith(",Abort")]
+    if abort_after_abort:
+        ctx.note("life cycle observation: tools that answer the acceptor's A-ABORT with their own A-ABORT before closing: %s"
+                 % sorted({k.split(" ")[0] for k in abort_after_abort}))
+    silent_ok = [k for k in tool_patterns if ("InsteadOfRp" in k) and "(exit 0)" in k]
+    if silent_ok:
+        ctx.note("life cycle observation: tools that exit 0 although their A-RELEASE-RQ was answered by an A-ABORT or by "
+                 "closing the connection (release result ignored): %s" % sorted({k.split(" ")[0] for k in silent_ok}))
+
